@@ -2,6 +2,7 @@ import Driver.Eio
 import Driver.Batcher
 import Driver.Store
 import Driver.Sio
+import Driver.Queue
 /-
   Line-protocol driver: one request per line on stdin, one canonical answer per line on stdout.
   The same request lines are executed by the Go harness against the real implementation.
@@ -16,6 +17,7 @@ def step (line : String) : String :=
   | "bat" :: rest => batLine rest
   | "hs" :: rest => hsLine rest
   | "sio" :: rest => sioLine rest
+  | "q" :: rest => qLine rest
   | _ => "bad-op"
 
 partial def loop (h : IO.FS.Stream) (out : IO.FS.Stream) : IO Unit := do
